@@ -24,7 +24,7 @@ func init() {
 		Floor:     200,
 		Technique: "runtime monitor: differential against an independent rendering of video-layers-allocation00 (encoder and decoder); fresh-vs-used receiver twin; recover()-guarded decoder fuzz",
 		Assumptions: []string{
-			"the empty allocation (no active layer) is only panic-checked: the specification does not define its encoding",
+			"the byte layout of the empty allocation (no active layer) is not judged (the specification does not define it); its round trip through Marshal/Unmarshal, also into a used receiver, is",
 			"bitrates are kept below 2^32 (the LEB128 range of C13)",
 		},
 		Strata: []fw.Stratum{
@@ -34,6 +34,7 @@ func init() {
 				}
 				return 2*270 + 100000
 			}, Run: c19Valid},
+			{Name: "empty-allocation", N: fw.Const(200, 2000), Run: c19Empty},
 			{Name: "invalid-values", N: fw.Const(30000, 300000), Run: c19Invalid},
 			{Name: "decoder-fuzz", N: fw.Const(60000, 600000), Run: c19Fuzz},
 		},
@@ -305,6 +306,49 @@ func c19Valid(c *fw.Ctx, i int) {
 		}
 	}
 	c.Count("unmarshal_exact_fresh_and_used", 1)
+}
+
+// c19Empty: an allocation without any active layer satisfies every constraint the property lists. The specification does not
+// fix its byte layout, so the layout is not judged - but whatever Marshal emits for it must decode back to it, completely,
+// into a fresh receiver and into one that decoded something else before.
+func c19Empty(c *fw.Ctx, i int) {
+	r := c.R
+	n := 1 + i%4
+	rid := (i / 4) % n
+	lv := rtp.VLA{RTPStreamID: rid, RTPStreamCount: n, }
+	var b []byte
+	var err error
+	if pv, st := fw.Guard(func() { b, err = lv.Marshal() }); pv != nil {
+		c.Fail("C19/empty/marshal-panics/"+fw.PanicFunc(st), fmt.Sprintf("VLA.Marshal panicked on an allocation without active layers: %v", pv), fw.W("value", lv.String(), "stack", st))
+		return
+	}
+	c.Evals(1)
+	if err != nil {
+		c.Count("empty_allocation_refused_by_Marshal(not judged)", 1)
+		return
+	}
+	for variant := 0; variant < 2; variant++ {
+		var d rtp.VLA
+		vname := "fresh"
+		if variant == 1 {
+			vname = "used"
+			other := c19Build(r, r.Range(1, 4), 1+r.Intn(15), r.Bool())
+			_, _ = d.Unmarshal(ref.EncodeVLA(other))
+		}
+		var nn int
+		if pv, st := fw.Guard(func() { nn, err = d.Unmarshal(fw.Exact(b)) }); pv != nil {
+			c.Fail("C19/empty/unmarshal-panics/"+fw.PanicFunc(st), fmt.Sprintf("VLA.Unmarshal panicked: %v", pv), fw.W("input", fw.Hex(b), "stack", st))
+			return
+		}
+		c.Evals(1)
+		if err != nil || nn != len(b) || d.RTPStreamID != rid || d.RTPStreamCount != n || len(d.ActiveSpatialLayer) != 0 || d.HasResolutionAndFramerate {
+			c.Fail("C19/empty/"+vname+"/roundtrip-differs", fmt.Sprintf("Marshal of an allocation without active layers (%d streams, id %d) gives %s; Unmarshal into a %s receiver: consumed %d, err %v, value %s",
+				n, rid, fw.Hex(b), vname, nn, err, d.String()), fw.W("encoding", fw.Hex(b), "decoded", d.String()))
+			return
+		}
+	}
+	c.Count("empty_allocation_roundtrips", 1)
+	c.Shapef("empty|n%d|rid%d", n, rid)
 }
 
 func c19Invalid(c *fw.Ctx, i int) {
